@@ -1,47 +1,9 @@
 (* Driver of the extracted Coq model: reads one command per line on stdin (format: see
    /verif/tools/FORMAT.md) and prints one line of canonical observation per command.
    All arithmetic is done by the extracted code; this file only parses and prints. *)
-open BinNums
 open Datatypes
 
-(* ---------- conversions between OCaml ints / strings and the extracted numbers ---------- *)
-let rec pos_of_int64 (n : int64) : positive =
-  if Int64.equal n 1L then Coq_xH
-  else if Int64.equal (Int64.logand n 1L) 0L then Coq_xO (pos_of_int64 (Int64.shift_right_logical n 1))
-  else Coq_xI (pos_of_int64 (Int64.shift_right_logical n 1))
-
-let z_of_int64 (n : int64) : coq_Z =
-  if Int64.equal n 0L then Z0
-  else if Int64.compare n 0L > 0 then Zpos (pos_of_int64 n)
-  else Zneg (pos_of_int64 (Int64.neg n))
-
-(* unsigned 64-bit pattern -> non-negative Z *)
-let z_of_bits64 (n : int64) : coq_Z =
-  if Int64.equal n 0L then Z0 else Zpos (pos_of_int64 n) (* logical shifts: works for the top bit too *)
-
-let rec int64_of_pos (p : positive) : int64 =
-  match p with
-  | Coq_xH -> 1L
-  | Coq_xO q -> Int64.shift_left (int64_of_pos q) 1
-  | Coq_xI q -> Int64.logor (Int64.shift_left (int64_of_pos q) 1) 1L
-
-let int64_of_z (z : coq_Z) : int64 =
-  match z with Z0 -> 0L | Zpos p -> int64_of_pos p | Zneg p -> Int64.neg (int64_of_pos p)
-
-let int_of_z z = Int64.to_int (int64_of_z z)
-let z_of_int n = z_of_int64 (Int64.of_int n)
-let int_of_pos p = Int64.to_int (int64_of_pos p)
-let pos_of_int n = pos_of_int64 (Int64.of_int n)
-let n_of_int n : coq_N = if n = 0 then N0 else Npos (pos_of_int n)
-let int_of_n (n : coq_N) = match n with N0 -> 0 | Npos p -> int_of_pos p
-
-let rec nat_of_int n : nat = if n <= 0 then O else S (nat_of_int (n - 1))
-let nat_of_int n =
-  let rec go acc n = if n <= 0 then acc else go (S acc) (n - 1) in
-  go O n
-let int_of_nat (n : nat) =
-  let rec go acc n = match n with O -> acc | S m -> go (acc + 1) m in
-  go 0 n
+open Conv
 
 (* ---------- tokens ---------- *)
 type toks = { a : string array; mutable i : int }
@@ -50,17 +12,17 @@ let next_int t = int_of_string (next t)
 let has_more t = t.i < Array.length t.a
 
 (* ---------- floats ---------- *)
-type fmt = { prec : coq_Z; emax : coq_Z; num : Num.coq_Num; hexlen : int }
+type 'z fmt_ = { prec : 'z; emax : 'z; num : Num.coq_Num; hexlen : int }
 let f64 = { prec = z_of_int 53; emax = z_of_int 1024; num = NumB.coq_NB64; hexlen = 16 }
 let f32 = { prec = z_of_int 24; emax = z_of_int 128; num = NumB.coq_NB32; hexlen = 8 }
 let fmt_of_string s = if s = "64" then f64 else if s = "32" then f32 else failwith ("bad precision " ^ s)
 
-let float_of_tok (f : fmt) (s : string) : Obj.t =
+let float_of_tok f (s : string) : Obj.t =
   let bits = Int64.of_string ("0x" ^ s) in
   Obj.repr (NumB.of_bits f.prec f.emax (z_of_bits64 bits))
 
 (* canonical printing: both zeros print as +0 *)
-let tok_of_float (f : fmt) (x : Obj.t) : string =
+let tok_of_float f (x : Obj.t) : string =
   let x : SpecFloat.spec_float = Obj.obj x in
   let x = match x with SpecFloat.S754_zero _ -> SpecFloat.S754_zero false | _ -> x in
   let b = int64_of_z (NumB.to_bits f.prec f.emax x) in
@@ -136,7 +98,7 @@ let rt_str = function Event.RTNone -> "-" | Event.InOut -> "io" | Event.OutIn ->
 let b01 b = if b then "1" else "0"
 
 (* one event, with references to other events rendered through [ref_] *)
-let event_str f (st : Event.store) (ref_ : positive option -> string) (i : positive) =
+let event_str f (st : Event.store) ref_ i =
   let e = Event.getE f.num st i in
   String.concat " "
     [ pt_str f e.Event.e_point; b01 e.Event.e_left; b01 e.Event.e_is_subject;
